@@ -55,11 +55,11 @@ def kind_of(dt):
 
 
 def weight_obj(tag):
-    return {"none": None, "pyint": 2, "pyfloat": 0.5, "npint64": np.int64(3), "npfloat32": np.float32(0.5), "npfloat64": np.float64(0.25)}[tag]
+    return {"none": None, "pyint": 2, "pyfloat": 0.5, "pyfloat4": 4.0, "npint64": np.int64(3), "npfloat32": np.float32(0.5), "npfloat64": np.float64(0.25)}[tag]
 
 
 def weight_is_float(tag):
-    return tag in ("pyfloat", "npfloat32", "npfloat64")
+    return tag in ("pyfloat", "pyfloat4", "npfloat32", "npfloat64")
 
 
 SCALARS = {"py2": 2, "py0.5": 0.5, "npint64_2": np.int64(2), "npfloat32_2": np.float32(2.0), "npfloat64_0.5": np.float64(0.5), "py4": 4}
@@ -111,7 +111,11 @@ class DtypeSystem(H.System):
         c = [1, 2, 0] if self.dim == 1 else [0, 1, 2, 1]
         if big:
             c = [40000, 0, 70000] if self.dim == 1 else [40000, 0, 70000, 1]
-        if frac_:
+        if frac_ == "big":
+            # large non-integral contents: the fraction is below any relative tolerance, an integer type must still be refused
+            # (seeded C13-set-dtype-allclose-large-values)
+            c = [120000.25, 0, 250000.5] if self.dim == 1 else [120000.25, 0, 250000.5, 1]
+        elif frac_:
             # non-integral contents (float partners only): nothing may be truncated on the way
             c = [0.5, 0, 0.25] if self.dim == 1 else [0.5, 0, 0.25, 1.5]
         return self.make(dtype, c), c
@@ -120,7 +124,9 @@ class DtypeSystem(H.System):
         if m["depth"] >= self.depth:
             return []
         ops = []
-        for w in ("none", "pyint", "pyfloat", "npint64", "npfloat32", "npfloat64"):
+        # "pyfloat4": an integral float weight - the contents stay integral, so a later set_dtype(int) is accepted and a
+        # fractional weight after that must promote again (seeded C13-fill-weight-type-cache-survives-set-dtype)
+        for w in ("none", "pyint", "pyfloat", "pyfloat4", "npint64", "npfloat32", "npfloat64"):
             ops.append(("fill", w))
         for w in ("none", "int64", "float32", "float64"):
             ops.append(("fill_n", w))
@@ -131,6 +137,8 @@ class DtypeSystem(H.System):
             for o in ("add_frac", "sub_frac", "iadd_frac", "isub_frac"):
                 ops.append((o, t))
         ops.append(("add_big", "int64"))
+        ops.append(("add_bigfrac", "float64"))
+        ops.append(("iadd_bigfrac", "float64"))
         ops.append(("iadd_big", "float64"))
         for s in SCALARS:
             for o in ("mul", "imul", "div", "idiv", "rmul"):
@@ -225,10 +233,11 @@ class DtypeSystem(H.System):
                 c[i] += ww
                 e2[i] += ww * ww
             expect_kind = "f" if (cur.kind == "f" or arg.startswith("float")) else "i"
-        elif name in ("add", "sub", "iadd", "isub", "add_big", "iadd_big", "add_frac", "sub_frac", "iadd_frac", "isub_frac"):
+        elif name in ("add", "sub", "iadd", "isub", "add_big", "iadd_big", "add_frac", "sub_frac", "iadd_frac", "isub_frac",
+                      "add_bigfrac", "iadd_bigfrac"):
             big = name.endswith("_big")
-            fr = name.endswith("_frac")
-            base = name.replace("_big", "").replace("_frac", "")
+            fr = "big" if name.endswith("_bigfrac") else name.endswith("_frac")
+            base = name.replace("_bigfrac", "").replace("_big", "").replace("_frac", "")
             p, pc = self.partner(arg, big, fr)
             psnap = self.snap(p)
             pcf = [Fraction(x) for x in pc]
